@@ -14,7 +14,8 @@
 //!   the RFC 5155 section 8 proof for the claim, with opt-out carrying the verdict only for DS
 //!   (`vref::denial::nsec3_proves`) — clause `unentailed`. Both reference layers are cross-checked.
 //! * Parameter mixtures: subsets mixing records of the same zone signed under two parameter sets
-//!   must never be Secure. Wrong-zone owners: the same records re-owned below another name.
+//!   must never be Secure. Records not in the response's zone: the genuine records re-owned below
+//!   strict descendants / the ancestor / an unrelated zone of the SOA owner (fn `reowned`).
 //! * Iteration limits as configuration: zones with iterations 0..3 x (soft, hard) in
 //!   {(1,2),(0,0),(2,2)}: iterations > soft => never Secure; iterations > hard => Bogus.
 //! * Completeness and binding end to end through the real `DnssecDnsHandle`, as in C08.
@@ -696,23 +697,78 @@ fn mixtures(spec: &ZoneSpec, a: &World, b: &World, l: &mut Local) {
                         }
                     }
                 }
-                // wrong zone: the same genuine records presented as `<hash>.o.` (another zone) with the zone's SOA
-                let moved: Vec<(HName, &NSEC3)> = a
-                    .recs
-                    .iter()
-                    .map(|(o, n, _)| {
-                        let first = o.iter().next().unwrap().to_vec();
-                        (HName::from_labels(vec![first, b"o".to_vec()]).unwrap(), n)
-                    })
-                    .collect();
-                let sub: Vec<(&HName, &NSEC3)> = moved.iter().map(|(o, n)| (o, *n)).collect();
-                l.eval();
-                let v = verify_nsec3(&query, Some(&a.origin), rcode_of(&claim), &[], &sub, SOFT, HARD);
-                l.outcome(&format!("wrong-zone:{}", format!("{v:?}").to_lowercase()));
-                if v == Proof::Secure {
-                    l.violation(&format!("unsound:wrong-zone-owner:{}", claim.tag()), "NSEC3 records owned by names outside the response's zone give Secure", || {
-                        json!({"level": "wrong-zone", "zone": spec.to_json(), "signing": a.signing.tag(), "qname": qn, "qtype": t, "claim": claim_json(&claim)})
-                    });
+            }
+        }
+    }
+}
+
+/// Records that do not belong to the response's zone: the zone's genuine NSEC3 records re-owned
+/// as `<hash>.<base>` for bases that are strict DESCENDANTS of the SOA owner (what a securely
+/// delegated child zone could sign), its strict ancestor (the root) and unrelated zones — every
+/// subset with all members re-owned, and every subset of >= 2 records with exactly one member
+/// re-owned — for every claim, with the zone's SOA and without SOA. Never Secure:
+///  * SOA present: every record must be owned directly below the SOA owner (RFC 5155 8.2 / the
+///    statement's "belonging to the response's zone");
+///  * SOA absent: judged where the records' zone `<base>` does not even enclose the query name
+///    (a zone cannot deny names outside itself).
+/// This clause is evaluated on its own (key `record-not-in-soa-zone` / `record-zone-does-not-
+/// enclose-qname`), before any truth/entailment reasoning, so the wrap-around defect cannot mask it.
+fn reowned(spec: &ZoneSpec, w: &World, l: &mut Local) {
+    let mut bases: Vec<(HName, Name, &'static str)> = vec![];
+    for d in ["a.", "b.", "a.a.", "*."] {
+        let s = format!("{d}{}", spec.origin);
+        bases.push((vzone::hname(&s), Name::parse(&s), "descendant"));
+    }
+    bases.push((HName::root(), Name::root(), "ancestor"));
+    bases.push((vzone::hname("o."), Name::parse("o."), "unrelated"));
+    let n = w.recs.len();
+    let masks: Vec<u32> = (1u32..(1 << n)).filter(|m| n <= 4 || m.count_ones() <= 3).collect();
+    let moved: Vec<Vec<HName>> = bases
+        .iter()
+        .map(|(b, _, _)| w.recs.iter().map(|(o, _, _)| b.prepend_label(o.iter().next().unwrap()).unwrap()).collect())
+        .collect();
+    for qn in spec.query_names(2) {
+        let qname = Name::parse(&qn);
+        if !qname.at_or_below(&w.apex) {
+            continue;
+        }
+        let hq = vzone::hname(&qn);
+        for t in [rz::T_A, rz::T_DS] {
+            let query = Query::new(hq.clone(), RecordType::from(t));
+            for claim in w.claims(&qname, t) {
+                let answers = w.expanded_answer(&claim, &hq, true);
+                for (bi, (_, rbase, rel)) in bases.iter().enumerate() {
+                    for soa in [Some(w.origin.clone()), None] {
+                        let judged = soa.is_some() || !qname.at_or_below(rbase);
+                        for &mask in &masks {
+                            // variant usize::MAX: every member re-owned; variant j: only member j re-owned
+                            let members: Vec<usize> = (0..n).filter(|i| mask >> i & 1 == 1).collect();
+                            let mut variants: Vec<usize> = vec![usize::MAX];
+                            if members.len() >= 2 {
+                                variants.extend(members.iter().copied());
+                            }
+                            for var in variants {
+                                let sub: Vec<(&HName, &NSEC3)> =
+                                    members.iter().map(|&i| (if var == usize::MAX || var == i { &moved[bi][i] } else { &w.recs[i].0 }, &w.recs[i].1)).collect();
+                                l.eval();
+                                let v = verify_nsec3(&query, soa.as_ref(), rcode_of(&claim), &answers, &sub, SOFT, HARD);
+                                l.outcome(&format!("reowned:{rel}:{}:{}", if soa.is_some() { "soa" } else { "nosoa" }, format!("{v:?}").to_lowercase()));
+                                if v == Proof::Secure && judged {
+                                    let key = if soa.is_some() {
+                                        format!("unsound:{}:record-not-in-soa-zone:{rel}", claim.tag())
+                                    } else {
+                                        format!("unsound:{}:record-zone-does-not-enclose-qname:{rel}:nosoa", claim.tag())
+                                    };
+                                    l.violation(&key, &format!("{} for {qn} {} is Secure on NSEC3 records owned below {rbase}, which is not the response's zone", claim.tag(), rz::type_name(t)), || {
+                                        json!({"level": "reowned", "zone": spec.to_json(), "signing": w.signing.tag(), "qname": qn, "qtype": t, "claim": claim_json(&claim),
+                                               "soa": soa.as_ref().map(|x| x.to_string()), "records_reowned_below": rbase.to_string(), "relation": rel,
+                                               "mask": mask, "only_member_reowned": if var == usize::MAX { json!("all") } else { json!(var) },
+                                               "owners": sub.iter().map(|(o, _)| o.to_string()).collect::<Vec<_>>()})
+                                    });
+                                }
+                            }
+                        }
+                    }
                 }
             }
         }
@@ -849,7 +905,11 @@ fn main() {
         let rt = vsim::rt();
         ctx.with_local(|l| match case["level"].as_str() {
             Some("limits") => iteration_limits(&spec, &rt, l, &cnt),
-            Some("mixture") | Some("wrong-zone") => {
+            Some("reowned") => {
+                let w = build_world(&spec, &Signing::from_tag(case["signing"].as_str().unwrap_or("nsec3:i0:s-:noopt")).unwrap()).unwrap();
+                reowned(&spec, &w, l);
+            }
+            Some("mixture") => {
                 let a = build_world(&spec, &Signing::from_tag(case["a"].as_str().or(case["signing"].as_str()).unwrap_or("nsec3:i0:s-:noopt")).unwrap()).unwrap();
                 let b = build_world(&spec, &Signing::from_tag(case["b"].as_str().unwrap_or("nsec3:i1:sab:noopt")).unwrap()).unwrap();
                 mixtures(&spec, &a, &b, l);
@@ -884,7 +944,7 @@ fn main() {
          thorough both parameter sets with and without opt-out; x every qname of {apex, U(3), x.o., names below cuts} x qtype {A,TXT,DS,NS,CNAME} x claim {NXDOMAIN, NODATA, expansion of each \
          published wildcard RRset} x soa {apex, absent} x EVERY non-empty subset of the zone's NSEC3 records (>7 records: subsets of size <=3) -> verify_nsec3; \
          oracle: Secure => claim true in the zone (vref::denial::truth) and the subset is the RFC 5155 section 8 proof with opt-out only for DS (nsec3_proves). \
-         Plus parameter mixtures / wrong-zone owners (never Secure), iterations 0..3 x limits {(1,2),(0,0),(2,2)}, completeness of every negative/wildcard DO=1 \
+         Plus parameter mixtures and records re-owned below descendants {a.z.,b.z.,a.a.z.,*.z.} / the ancestor (root) / an unrelated zone of the SOA owner, whole subsets and single members (never Secure), iterations 0..3 x limits {(1,2),(0,0),(2,2)}, completeness of every negative/wildcard DO=1 \
          server answer through the real DnssecDnsHandle. Non-trivial = distinct (world, qname, qtype) for which some enumerated (claim, soa, subset) has a false claim or a valid proof of >= 2 records, plus each completeness case.",
     );
     ctx.assume("vref::zone + vref::denial (self-tested on every run against RFC 4592, RFC 4034 6.1, RFC 4035 app. A/B, RFC 5155 app. A hash vectors and app. B)");
@@ -947,6 +1007,8 @@ fn main() {
         if let (Ok(a), Ok(b), Ok(c)) = (a, b, c) {
             mixtures(s, &a, &b, l);
             mixtures(s, &b, &c, l); // same iterations, different salt
+            reowned(s, &a, l);
+            reowned(s, &b, l);
         }
     });
 
@@ -970,6 +1032,9 @@ fn main() {
     need.insert("bound:secure", "no Secure decision was replayed end to end");
     need.insert("chain:as-rfc5155", "no chain matched the reference chain");
     need.insert("mixture:bogus", "no parameter mixture was exercised");
+    need.insert("reowned:descendant:soa:bogus", "no record re-owned below a descendant of the SOA owner was exercised");
+    need.insert("reowned:ancestor:soa:bogus", "no record re-owned below an ancestor of the SOA owner was exercised");
+    need.insert("reowned:unrelated:soa:bogus", "no record re-owned below an unrelated zone was exercised");
     need.insert("limits:above-hard:bogus", "the hard iteration limit was never exceeded");
     need.insert("limits:above-soft:insecure", "the soft iteration limit was never exceeded");
     need.insert("limits:within:secure", "no proof within the limits was accepted");
